@@ -16,6 +16,7 @@ RULES = {
     "R-05.1t": "text production cannot fail: to_styled_text/to_text of record and helper classes contain no operation that can raise for a validated field (decode of arbitrary octets, int(), unguarded subscripts, division)",
     "R-05.2": "quoted character-strings: every octet the tokenizer treats specially inside quotes is escaped by dns.rdata._escapify; \\DDD uses 3 digits on both sides",
     "R-05.3": "a field printed octet-wise with dns.rdata._escapify is parsed octet-wise (unescape_to_bytes), not through get_string() code points",
+    "R-05.5": "the constructor validators enforce the intervals the evaluator assumes, on the value they return: _as_uintN rejects < 0 and > 2^N-1, _as_int rejects < low and > high, _as_bytes bounds len() of the *returned* bytes by max_length",
     "R-05.4": "known types given in generic \\# syntax are re-decoded by the type's own reader and compared, inside the syntax-error wrapper",
 }
 
@@ -244,6 +245,61 @@ def _encoders(model):
     return out
 
 
+VALIDATOR_BOUNDS = {"_as_uint8": (0, 0xFF), "_as_uint16": (0, 0xFFFF), "_as_uint32": (0, 0xFFFFFFFF), "_as_uint48": (0, 0xFFFFFFFFFFFF), "_as_int": ("low", "high"), "_as_bytes": (None, "max_length")}
+
+
+def check_validators(model, rep, rule):
+    """The validators are the trusted base of the interval evaluation (and of every `assert l < 256` in an encoder): check that each
+    one raises unless the value *it returns* lies in the assumed interval."""
+    n_v = 0
+    for name, (lo, hi) in sorted(VALIDATOR_BOUNDS.items()):
+        f = model.func("dns.rdata.Rdata." + name)
+        cfg = CFG(f.node, implicit_exc=False)
+        rets = [n for n in cfg.nodes if isinstance(n.ast, ast.Return) and isinstance(n.ast.value, ast.Name)]
+        if not rets:
+            rep.blind(rule, f.qualname, where(f, f.node), "no `return <name>` found", stmt="validator-bound")
+            continue
+        n_v += 1
+        for rn in rets:
+            v = rn.ast.value.id
+            subj = f"len({v})" if name == "_as_bytes" else v
+            guards = [t for t in cfg.nodes if t.kind == "test" and isinstance(t.ast, ast.If) and t.ast.body and isinstance(t.ast.body[-1], ast.Raise) and cfg.edge_dominated(rn.id, {(t.id, "f")})]
+            ats = []
+            for t in guards:
+                nc = normalise_compare(t.ast.test)
+                for a in atoms(nc):
+                    ats.append((a, nc[0], t))
+            # every ordering comparison in a raising guard must be about the returned value
+            for (a, _, t) in ats:
+                if a[1] in ("<", "<=", ">", ">=") or (a[1] == "==" and a[0].startswith("len(")):
+                    who = a[0] if not a[0].lstrip("-").isdigit() else a[2]
+                    inner = who[4:-1] if who.startswith("len(") and who.endswith(")") else who
+                    if inner.isidentifier() and inner != v and inner not in (str(lo), str(hi)):
+                        rep.bad(rule, f.qualname, where(f, t.ast), f"`{src(t.ast.test)}` bounds `{inner}`, but the validator returns `{v}`: the returned value can lie outside the bound "
+                                "(e.g. text measured in characters, stored in octets) and the encoder's width assumption / `assert l < 256` fails later", stmt="validator-subject")
+
+            def has(op_set, rhs, strict_plus):
+                for (a, kind, _) in ats:
+                    if kind not in ("atom", "or", "and"):
+                        continue
+                    if a[0] == subj and a[1] in op_set:
+                        if isinstance(rhs, int):
+                            try:
+                                c = int(ast.literal_eval(a[2]))
+                            except Exception:
+                                continue
+                            if c == rhs + (strict_plus if a[1] in (">=", "<=") else 0):
+                                return True
+                        elif a[2] == rhs and a[1] in (">", "<"):
+                            return True
+                return False
+            if hi is not None:
+                rep.check(has((">", ">="), hi, 1), rule, f.qualname, where(f, rn.ast), f"raises unless {subj} <= {hi}", f"no dominating `if {subj} > {hi}: raise` before `return {v}`: values above the assumed bound are accepted", stmt="validator-upper")
+            if lo is not None:
+                rep.check(has(("<", "<="), lo, -1), rule, f.qualname, where(f, rn.ast), f"raises unless {subj} >= {lo}", f"no dominating `if {subj} < {lo}: raise` before `return {v}`: values below the assumed bound are accepted", stmt="validator-lower")
+    rep.floor(rule + "-validators", n_v, 6)
+
+
 def run(model, rep, tier):
     iv = Intervals(model)
     # ---------------------------------------------------------------- R-05.1 widths
@@ -451,6 +507,8 @@ def run(model, rep, tier):
               "generic form = \\# length hex, with the length checked", "generic form parsing changed", stmt="generic-shape")
     gs = model.func("dns.rdata.GenericRdata.to_styled_text")
     rep.check("\\\\# " in src(gs.node) and "len(self.data)" in src(gs.node), "R-05.4", gs.qualname, where(gs, gs.node), "generic text = \\# length hex", "generic text production changed", stmt="generic-text")
+    # ---------------------------------------------------------------- R-05.5
+    check_validators(model, rep, "R-05.5")
     rep.assume("constructor validators (Rdata._as_*) are the only way fields are set (C07 R-07.2); float fields are outside the interval evaluator")
     rep.meta["explanation"] = (
         "Interval evaluation of every struct.pack argument in ~60 wire encoders against the ranges established by constructor validators (field table read from __init__), a local scan of every text "
@@ -459,6 +517,12 @@ def run(model, rep, tier):
 
 
 WITNESSES = [
+    {"id": "c05-as-bytes-bounds-the-argument", "rule": "R-05.5", "file": "dns/rdata.py", "expect": "fires",
+     "old": "        if max_length is not None and len(bvalue) > max_length:", "new": "        if max_length is not None and len(value) > max_length:"},
+    {"id": "c05-uint16-upper-off", "rule": "R-05.5", "file": "dns/rdata.py", "expect": "fires",
+     "old": "        if value < 0 or value > 65535:", "new": "        if value < 0 or value > 65536:"},
+    {"id": "c05-twin-uint8-ge", "rule": "R-05.5", "file": "dns/rdata.py", "expect": "silent",
+     "old": "        if value < 0 or value > 255:", "new": "        if value <= -1 or value >= 256:"},
     {"id": "c05-hinfo-no-maxlength", "rule": "R-05.1", "file": "dns/rdtypes/ANY/HINFO.py", "expect": "fires",
      "old": "self.cpu: bytes = self._as_bytes(cpu, True, 255)", "new": "self.cpu: bytes = self._as_bytes(cpu, True)"},
     {"id": "c05-srv-port-unvalidated", "rule": "R-05.1", "file": "dns/rdtypes/IN/SRV.py", "expect": "fires",
